@@ -409,6 +409,90 @@ func c19(r *engine.Report, p *engine.Program) {
 		both := nTests == 1 && len(secretScans(rst)) == 1
 		r.Check("R2-redaction", "admission test and redaction use the same normaliser", aru.Pos(), both, "both sides use strings.HasPrefix(strings.ToLower(name), \"secret_\")", "admission and redaction no longer use the same name test")
 	}
+	// R2c the redacting accessor keeps nothing on the unit: Status() is called concurrently for one
+	// unit (every control session, the monitors), so any scratch state on the receiver is a race
+	// in the scan-then-delete step
+	{
+		var bad []string
+		recv := rst.Params[0]
+		for _, b := range rst.Blocks {
+			for _, in := range b.Instrs {
+				st, isS := in.(*ssa.Store)
+				if !isS {
+					continue
+				}
+				// address rooted at the receiver?
+				a := st.Addr
+				for i := 0; i < 8; i++ {
+					switch x := a.(type) {
+					case *ssa.FieldAddr:
+						a = x.X
+						continue
+					case *ssa.IndexAddr:
+						a = x.X
+						continue
+					case *ssa.UnOp:
+						a = x.X
+						continue
+					}
+					break
+				}
+				if a == ssa.Value(recv) {
+					bad = append(bad, p.Pos(st.Pos()))
+				}
+			}
+		}
+		r.Check("R2-redaction", "remoteUnit.Status: writes no field of the unit (safe under concurrent callers)", rst.Pos(), len(bad) == 0,
+			"every store in Status() goes to locals or to the private copy returned by UnredactedStatus()", fmt.Sprintf("Status() stores into the unit itself at %v: two overlapping status requests share that state, one can delete an empty or partial key list and return the secrets", bad))
+	}
+	// R1b every status the API hands out is the value returned by unit.Status()
+	{
+		var statusCalls []ssa.Value
+		for _, ci := range engine.CallsIn(usf) {
+			if ci.Common().IsInvoke() && ci.Common().Method.Name() == "Status" {
+				if v := ci.Value(); v != nil {
+					statusCalls = append(statusCalls, v)
+				}
+			}
+		}
+		ok := len(statusCalls) > 0
+		var bad ssa.Instruction
+		for _, ret := range engine.Returns(usf) {
+			if len(ret.Results) == 0 {
+				continue
+			}
+			res := engine.Unwrap(ret.Results[0])
+			if engine.IsNilConst(res) {
+				continue
+			}
+			from := false
+			for _, c := range statusCalls {
+				if res == c {
+					from = true
+				}
+			}
+			if ph, isPhi := res.(*ssa.Phi); isPhi {
+				from = true
+				for _, e := range ph.Edges {
+					okE := engine.IsNilConst(e)
+					for _, c := range statusCalls {
+						if engine.Unwrap(e) == c {
+							okE = true
+						}
+					}
+					if !okE {
+						from = false
+					}
+				}
+			}
+			if !from {
+				ok = false
+				bad = ret
+			}
+		}
+		r.Check("R1-who-may-unredacted", "Workceptor.UnitStatus: every non-nil result is the value of unit.Status()", usf.Pos(), ok,
+			"the status/list API cannot return a record that did not pass through the unit's redacting accessor", "UnitStatus can return a record obtained some other way ("+descInstr(p, bad)+"), e.g. loaded from the status file, which stores the parameters unredacted")
+	}
 	// R6 the unredacted values leave the submitter only over its connection
 	if sru := p.Func("(*workceptor.remoteUnit).startRemoteUnit"); sru != nil && len(sru.Params) >= 3 {
 		leaks, nSrc, nSink := secretFlow(p, sru, rp, sru.Params[2])
